@@ -454,6 +454,9 @@ func TestSim(t *testing.T) {
 		if v.Known {
 			sb, mr = 5*time.Second, 100
 		}
+		if os.Getenv("VERIF_NOSHRINK") != "" {
+			mr = 0
+		}
 		min, _ := shrink(t, sc, tier, r.Streams, r.Class, sb, mr)
 		var hashes []string
 		var last *runResult
